@@ -214,6 +214,49 @@ def run(tier, seed):
         if pa != pb or a["code"] != b_["code"]:
             failures.append(Failure("C08", "cli:formats-differ", f"{f}: json {pa} exit {a['code']} vs humanized {pb} exit {b_['code']}",
                                     {"kind": "file", "fname": f, "text": t}))
+    # several files found through a directory: both formats, run as separate commands under different string-hash
+    # seeds, must list the same files in the same order (the order is part of the report)
+    import os
+    import shutil
+    import subprocess
+    import sys
+    import tempfile
+    root = tempfile.mkdtemp(prefix="mcverif_c08_")
+    try:
+        names = ["a.c", "b.h", "zz.c", "m_file.c", "src/x.c", "src/y.h", "src/deep/k.c", "inc/q.h", "inc/r.c", "e.c"]
+        for nm in names:
+            os.makedirs(os.path.dirname(os.path.join(root, nm)) or root, exist_ok=True)
+            base = os.path.basename(nm)
+            with open(os.path.join(root, nm), "w") as f:
+                if nm.endswith(".h"):
+                    g = base.upper().replace(".", "_")
+                    f.write(header42.header_text(base) + f"\n#ifndef {g}\n# define {g}\n\nint\tft_v(int n);\n\n#endif\n")
+                else:
+                    f.write(header42.header_text(base) + "\nint\tft_v(int n)\n{\n\treturn (n); \n}\n" * (1 if "x" in nm else 0)
+                            or header42.header_text(base) + "\nint\tft_v(int n)\n{\n\treturn (n);\n}\n")
+        orders = {}
+        for hs, fmt, args in ((1, "json", ["."]), (2, "humanized", ["."]), (3, "json", []), (4, "humanized", []),
+                              (5, "json", ["src", "inc"]), (6, "humanized", ["src", "inc"])):
+            env = dict(os.environ, PYTHONPATH=impl.REPO, PYTHONHASHSEED=str(hs), PYTHONDONTWRITEBYTECODE="1")
+            p_ = subprocess.run([sys.executable, "-m", "norminette", "--no-colors", "-f", fmt] + args, cwd=root, env=env,
+                                capture_output=True, text=True, timeout=120)
+            st.runs += 1
+            try:
+                parsed = c16.parse(p_.stdout, fmt == "json")
+            except Exception as e:  # noqa: BLE001
+                failures.append(Failure("C08", "multi:unparsable", f"{fmt} {args}: {type(e).__name__} {p_.stderr[-200:]}",
+                                        {"kind": "multi"}))
+                continue
+            orders[(fmt, tuple(args))] = [(a, b_, tuple(c)) for a, b_, c in parsed]
+        for args in ((".",), (), ("src", "inc")):
+            a, b_ = orders.get(("json", args)), orders.get(("humanized", args))
+            if a is not None and b_ is not None and a != b_:
+                kind = "order" if sorted(a) == sorted(b_) else "content"
+                failures.append(Failure("C08", f"multi:{kind}-differs", f"args {list(args)}: json lists {[x[0] for x in a]}, humanized "
+                                                                        f"{[x[0] for x in b_]}", {"kind": "multi"}))
+        st.bump("multi_file_runs", len(orders))
+    finally:
+        shutil.rmtree(root, ignore_errors=True)
     # comparator laws, exhaustively over the small domain
     objs, _ = comparator_domain()
     n = len(objs)
@@ -259,6 +302,9 @@ def run(tier, seed):
 
 
 def replay(payload):
+    if payload["kind"] == "multi":
+        res = run("quick", 0)
+        return [f for f in res.failures if f.signature.startswith("multi:")]
     if payload["kind"] == "file":
         out, _ = check_file((payload["fname"], payload["text"]))
         return [Failure("C08", f"{k}:{c}", d, payload) for k, c, d in out]
